@@ -258,22 +258,30 @@ def run_one(ctx, tb, contexts, fe, opts, scratch, tag) -> None:
                     if t != "vf_probe_test"})
     how = ctx.rng.choice(["timestamp", "datetime"])
     cfgd = P.build_config(contexts, how)
+    if len(contexts) >= 2 and fe != "qcconfig" and ctx.rng.random() < 0.3:
+        # run -> Config.add(more contexts) -> run: the config that is finally run is the same
+        k = ctx.rng.randrange(1, len(contexts))
+        opts = {**opts, "add_later": P.build_config(contexts[k:], how)}
+        cfgd = P.build_config(contexts[:k], how)
+        ctx.count("c05.run_add_run_histories")
     if fe == "qcconfig":
         # single stream: QcConfig names it _stream
         cfgd = {"contexts": [{**c, "streams": {"_stream": next(iter(c["streams"].values()))}} for c in cfgd["contexts"]]}
     P.LOG.clear()
     with P.spies(names):
         res, err = P.run_frontend(fe, tb, cfgd, scratch, opts)
-    wb = {"kind": "stream-run", "frontend": fe, "opts": core.jsonable(opts), "table": tb.describe(),
+    wb = {"kind": "stream-run", "frontend": fe, "opts": core.jsonable({k: v for k, v in opts.items() if k != "add_later"}),
+          "history": "run, Config.add(later contexts), run" if "add_later" in opts else "single run", "table": tb.describe(),
           "contexts": core.jsonable(contexts), "window_carrier": how}
-    judge_run(ctx, fe, opts, tb, contexts, res, err, wb)
+    judge_run(ctx, fe, {k: v for k, v in opts.items() if k != "add_later"}, tb, contexts, res, err, wb)
     P.LOG.clear()
     ctx.count("c05.runs")
     ctx.count(f"c05.runs.{fe}")
     tests = "+".join(sorted({t for c in contexts for ts_ in c["streams"].values() for _, t, _ in ts_}))
     wk = ",".join(sorted({wkind(tb, c["window"]) for c in contexts}))
     trivial = len(contexts) == 1 and contexts[0]["window"] == (None, None) and tests == "vf_probe_test"
-    ctx.case(f"{tag}|{fe}{sorted(opts.items()) if 'names' not in opts else 'renamed'}|{wk}|{tests}|n{tb.n}|"
+    okey = sorted((k, v) for k, v in opts.items() if k != "add_later") if "names" not in opts else "renamed"
+    ctx.case(f"{tag}|{fe}{okey}{'|add-later' if 'add_later' in opts else ''}|{wk}|{tests}|n{tb.n}|"
              f"z{int(tb.with_z)}p{int(tb.with_pos)}t{int(tb.with_time)}", trivial=trivial,
              sample={"frontend": fe, "opts": core.jsonable(opts), "table": tb.describe(),
                      "contexts": core.jsonable(contexts)})
@@ -283,6 +291,7 @@ def run(ctx) -> None:
     rng = ctx.rng
     ctx.require("c05.runs", 300)
     ctx.require("c05.invocations_observed", 300)
+    ctx.require("c05.run_add_run_histories", 10)
     for fe in P.FRONTENDS:
         ctx.require(f"c05.runs.{fe}", 5)
     P.install_probes()
@@ -326,7 +335,17 @@ def run(ctx) -> None:
                         m, t, kw, needs = REAL_TESTS[k]
                         if any(t == x[1] for x in tests):
                             continue
-                        tests.append((m, t, dict(kw)))
+                        kw = dict(kw)
+                        if rng.random() < 0.25:
+                            # legacy style: the config also names an input the stream supplies itself; the rows handed
+                            # over by the stream are what the statement says the test is called on
+                            if "z" in needs and tb.with_z:
+                                kw["zinp"] = [9.0] * tb.n
+                                ctx.count("c05.configs_naming_a_stream_input")
+                            if "pos" in needs and tb.with_pos:
+                                kw["lon"], kw["lat"] = [0.0] * tb.n, [0.0] * tb.n
+                                ctx.count("c05.configs_naming_a_stream_input")
+                        tests.append((m, t, kw))
                     rng.shuffle(tests)
                     sd[s] = tests
                 contexts.append({"window": w, "streams": sd})
